@@ -25,7 +25,7 @@ ENC = C.Kind("encoded-broadcast", impl=_impl, model=lambda a: "dgram " + a["dgra
 
 
 def _impl_bridge(a):
-    out = BH.run_bridge_sequence(1, [(0, a["dgram"])])
+    out = BH.run_bridge_sequence(1, [(0, a["dgram"])], cbform=BH.CALLBACK_FORMS[len(a["fields"]) % 5])     # a function, a lambda, a bound method, …
     return "device " + out[2:] if out != "-" else "nothing"
 
 
@@ -35,7 +35,10 @@ VIA = C.Kind("via-running-bridge", impl=_impl_bridge, model=lambda a: "dgram " +
 
 RAW = C.Kind("shipped-capture", impl=lambda a: BH.parse_direct(a["dgram"]), model=lambda a: "dgram " + a["dgram"],
              classify=lambda a, o: "capture:" + o.split()[0], nontrivial=lambda a, o: a["name"])
-KINDS = {"encoded-broadcast": ENC, "via-running-bridge": VIA, "shipped-capture": RAW}
+ENC_BUF = C.Kind("encoded-broadcast-in-a-reused-buffer", impl=lambda a: BH.parse_direct(a["dgram"], "buffer"), model=lambda a: "dgram " + a["dgram"],
+                 judge=lambda a, o: [(f"c05exp {a['family']} {a['fields']}", o)],
+                 classify=lambda a, o: "buf:" + a["fields"].split()[0], nontrivial=lambda a, o: (a["fields"].split()[0], o[:90]))
+KINDS = {"encoded-broadcast-in-a-reused-buffer": ENC_BUF, "encoded-broadcast": ENC, "via-running-bridge": VIA, "shipped-capture": RAW}
 
 
 def captures():
@@ -69,6 +72,9 @@ def streams(ctx):
     for fam in ("t1", "shutter", "thermo"):
         items = B.encode_all([B.gen_device(rng, fam) for _ in range(ctx.n(700, 17000))])
         ctx.run_cases(ENC, f"encoded-{fam}", items, exhaustive=False, sample_every=349)
+    # a caller of the parser with ONE receive buffer that is refilled for every broadcast
+    items = B.encode_all([B.gen_device(rng) for _ in range(ctx.n(300, 6000))])
+    ctx.run_cases(ENC_BUF, "broadcasts-in-one-reused-receive-buffer", items, exhaustive=False, sample_every=149)
     items = B.encode_all([B.gen_device(rng) for _ in range(ctx.n(40, 400))])
     ctx.run_cases(VIA, "through-a-running-bridge-on-loopback", items, exhaustive=False, sample_every=20)
     # a broadcast says the same on a host in any zone (remaining time and auto shutdown are durations, not clock times)
